@@ -71,8 +71,12 @@ def gen(rng, tier, ctx):
         d = {"desc": e, "tag": tag}
         descs.append(d)
     # a variant that shares the transition-list object of another description
-    if nd >= 2 and rng.random() < 0.35:
-        src = rng.randrange(nd - 1)
+    bigs = [i for i in range(nd - 1) if isinstance(dec(descs[i]["desc"]).get("players"), list)
+            and len(dec(descs[i]["desc"])["players"]) >= 150] if nd >= 2 else []
+    twin_pair = None
+    if nd >= 2 and (rng.random() < 0.35 or (bigs and rng.random() < 0.8)):
+        src = rng.choice(bigs) if bigs else rng.randrange(nd - 1)
+        twin_pair = (src, nd - 1)
         base = dec(descs[src]["desc"])
         if isinstance(base.get("rewards"), list) and base["rewards"]:
             # a near-twin: same size and shape, one player / reward / target / probability digit different
@@ -118,6 +122,14 @@ def gen(rng, tier, ctx):
             elif r2 < 0.6:
                 op["interrupt"]["exc"] = "MemoryError"
         opl.append(op)
+    if twin_pair is not None and rng.random() < 0.7:
+        # the sibling and its near-twin solved back to back, in one process, same mode
+        pr = rng.random() < 0.6
+        pair = [{"op": "solve_fresh", "d": twin_pair[0], "prune": pr}, {"op": "solve_fresh", "d": twin_pair[1], "prune": pr}]
+        if rng.random() < 0.5:
+            pair.reverse()
+        at = rng.randrange(len(opl) + 1)
+        opl[at:at] = pair
     return {"cfg": {"klass": klass}, "descs": descs, "ops": opl}
 
 
